@@ -335,6 +335,33 @@ pub fn run(args: &Args) {
             let hwant: serde_json::Map<String, Value> = pick.iter().enumerate().map(|(n, k)| (format!("k{}", n), wants[*k].clone())).collect();
             c.check(&htext, &Ok(Value::Object(hwant)), true);
         }
+        // 8d. flatten removes exactly one level, also when what it flattens was built by nested multi-selects
+        if !doc.is_null() {
+            if let (Ok(a), Ok(b)) = (&l_out, &r_on_doc) {
+                let one_level = |items: Vec<Value>| -> Value {
+                    let mut out = vec![];
+                    for it in items {
+                        match it {
+                            Value::Array(inner) => out.extend(inner),
+                            other => out.push(other),
+                        }
+                    }
+                    Value::Array(out.into_iter().filter(|v| !v.is_null()).collect())
+                };
+                let e1 = one_level(vec![json!([a, b]), a.clone()]);
+                ctx!("flatten-of-nested-multi-select").check(&format!("[[({}), ({})], ({})][]", l, r, l), &Ok(e1), true);
+                let e2 = one_level(vec![json!([[a]]), json!([b])]);
+                ctx!("flatten-of-nested-multi-select").check(&format!("[[[({})]], [({})]][]", l, r), &Ok(e2), true);
+            }
+            // an argument that fails makes the call fail (with that failure), whatever the other arguments are
+            let bad = ["abs('x')", "nofn(@)", "length()"][rng.below(3)];
+            let class = ["type", "unknown-function", "arity"][["abs('x')", "nofn(@)", "length()"].iter().position(|b| *b == bad).unwrap()];
+            if l_out.is_ok() {
+                for text in [format!("not_null(({}), {})", l, bad), format!("not_null({}, ({}))", bad, l), format!("to_array({})", bad), format!("merge(`{{}}`, {})", bad), format!("length({})", bad)] {
+                    ctx!("failing-argument").check(&text, &Err(format!("search:{}", class)), true);
+                }
+            }
+        }
         // 8a. n copies of one member side by side: n results, whatever n is
         if i % 5 == 0 {
             let n = [2usize, 3, 5, 9, 17, 33, 65, 70, 129, 140][rng.below(10)];
